@@ -189,6 +189,8 @@ pub struct Node {
     pub probe_outstanding: std::collections::BTreeSet<NodeId>,
     /// ghost (as leader): snapshots handed to the transport about which the transport has not reported yet
     pub snap_handed: BTreeMap<NodeId, u64>,
+    /// ghost: (index -> term) of entries handed out for persistence by earlier Readies of this incarnation
+    pub persist_handed: BTreeMap<u64, u64>,
     pub ticks_as_leader_with_transferee: usize,
     pub transferee_seen: Option<u64>,
     /// ghost: in-flight window capacity last requested per peer (C18: a resize must not get lost)
@@ -421,6 +423,7 @@ impl World {
                     reloaded_lower_commit: false,
                     probe_outstanding: Default::default(),
                     snap_handed: Default::default(),
+                    persist_handed: Default::default(),
                     ticks_as_leader_with_transferee: 0,
                     transferee_seen: None,
                     want_cap: BTreeMap::new(),
@@ -790,6 +793,7 @@ impl World {
         node.snap_outstanding.clear();
         node.probe_outstanding.clear();
         node.snap_handed.clear();
+        node.persist_handed.clear();
         if node.obs.commit < node.max_commit_ever {
             node.reloaded_lower_commit = true;
         }
@@ -902,7 +906,15 @@ impl World {
 
         // ---- 4. entries
         if !rd.entries().is_empty() {
-            let ents = rd.entries().clone();
+            // half of the simulated applications move the entries out of the Ready (as an application that fills
+            // a write batch does), the others borrow them
+            let takes = crate::prng::mix(self.cfg.timeout_salt, n) & 1 == 1;
+            let ents = if takes {
+                self.bump("ready_entries_taken");
+                rd.take_entries()
+            } else {
+                rd.entries().clone()
+            };
             if ents.windows(2).any(|w| w[1].index != w[0].index + 1) {
                 let d = format!("node {n}: Ready.entries() is not contiguous: indexes {:?}", ents.iter().map(|e| e.index).collect::<Vec<_>>());
                 return Err(self.violation("C07", "C07.persist_handoff", n, d, "entries_not_contiguous".into()));
@@ -993,6 +1005,7 @@ impl World {
                     node.disk.queue(WriteItem::HardState(hs));
                 }
                 { let r = self.check_leader_msgs(n, light.messages(), 0); self.gate(r)?; }
+                self.note_light_messages(n, light.messages());
                 let lmsgs = light.take_messages();
                 if !lmsgs.is_empty() {
                     let early = !self.nodes[&n].disk.wq.is_empty();
@@ -1522,6 +1535,27 @@ impl World {
                 let r = self.bogus(*n, *kind, *from, *term_delta);
                 self.gate(r)?;
             }
+            Action::StrangerVote { n, from, term_delta, pre, fresh } => {
+                let st = match self.nodes.get(n) {
+                    Some(x) if x.running() && !x.obs.prs_keys.contains(from) && !self.nodes.contains_key(from) => Some((x.obs.term, x.obs.last_index, x.obs.last_term)),
+                    _ => None,
+                };
+                if let Some((term, li, lt)) = st {
+                    let mut m = Message::default();
+                    m.set_msg_type(if *pre { MessageType::MsgRequestPreVote } else { MessageType::MsgRequestVote });
+                    m.from = *from;
+                    m.to = *n;
+                    // a campaigning node is at least at term 1 (term 0 marks local messages)
+                    m.term = (term + *term_delta as u64).max(1);
+                    if *fresh {
+                        m.index = li;
+                        m.log_term = lt;
+                    }
+                    self.bump("stranger_vote_requests");
+                    let mc = m.clone();
+                    self.call(*n, CallKind::Step(Box::new(mc)), move |raw| raw.step(m).map_err(|e| format!("{e:?}")))?;
+                }
+            }
             Action::Stabilise { seed, transfer } => self.stabilise(*seed, *transfer)?,
             Action::Lockstep { majority } => self.lockstep_round(majority)?,
         }
@@ -1560,6 +1594,7 @@ impl World {
             Action::StartNode { n } => (26, *n),
             Action::Decommission { n } => (27, *n),
             Action::Bogus { n, .. } => (28, *n),
+            Action::StrangerVote { n, .. } => (35, *n),
             Action::Stabilise { .. } => (29, 0),
             Action::Lockstep { .. } => (30, 0),
         };
